@@ -692,7 +692,14 @@ impl<'a> Render<'a> {
                         Pat::Any => out.push('_'),
                         Pat::Type(n) => out.push_str(n),
                         Pat::Cmp(op, v) => {
-                            if op != "==" || self.rng.below(2) == 0 {
+                            // `case int(q)` would read `int` as a type pattern: such values keep their operator
+                            let types = ["bool", "int", "uint", "float", "double", "string", "bytes", "type", "timestamp", "duration", "null_type", "dyn"];
+                            let leads_with_type = match v {
+                                T::Call { f, .. } => types.contains(&f.as_str()),
+                                T::Id(n) => types.contains(&n.as_str()),
+                                _ => false,
+                            };
+                            if op != "==" || leads_with_type || self.rng.below(2) == 0 {
                                 out.push_str(op);
                                 self.sp(out, false);
                             }
